@@ -29,7 +29,12 @@ class Session:
 
     def mir_path(self, kind, featureset="default"):
         self.mir(kind, featureset)
-        return self._mirpath[(kind, featureset)]
+        p = self._mirpath[(kind, featureset)]
+        if not os.path.exists(p):
+            # the shared cache was pruned by other runs while this (long) run was going on: dump again for the same tree
+            p, tree, h = common.mir_dump(kind, featureset)
+            self._mirpath[(kind, featureset)] = p
+        return p
 
     def enums(self, featureset="default"):
         if featureset not in self._enums:
